@@ -335,6 +335,21 @@ func (cs *ContractSet) parseFile(path, pkgdir string) error {
 				return fail(l, "loop outside unit")
 			}
 			id := strings.Fields(t)[1]
+			// a loop belongs to the most recent unit of the function it names (not necessarily the current unit)
+			{
+				fn := id
+				if k := strings.IndexAny(fn, "@#"); k >= 0 {
+					fn = fn[:k]
+				}
+				if cur.Func != fn {
+					for ui := len(cs.Units) - 1; ui >= 0; ui-- {
+						if cs.Units[ui].PkgDir == pkgdir && cs.Units[ui].Func == fn {
+							cur = cs.Units[ui]
+							break
+						}
+					}
+				}
+			}
 			if k := strings.Index(t, "@\""); k >= 0 {
 				a, err := strconv.Unquote(strings.TrimSpace(t[k+1:]))
 				if err != nil {
